@@ -42,7 +42,7 @@ def run(ctx):
                     nontrivial=lambda a, o: len(a[0]) + len(a[1]) >= 2,
                     classify=lambda a, o: "shuffled")
     from multidecoder.multidecoder import Multidecoder
-    inputs = list(INPUTS) + _deep_inputs()
+    inputs = list(INPUTS) + _deep_inputs() + [b"C:\\Windows\\System32\\cmd.exe", b"run powershell.exe now", b"pwsh.exe"]      # the last three: two decoders report the same span (tie)
     for _ in range(ctx.budget(6, 60)):
         inputs.append(bytes(ctx.rng.choice(b"abcdefgh .:/@-_0123456789\n\"'+=") for _ in range(ctx.rng.randint(0, 100))))
     fresh = [node_val(Multidecoder().scan(d)) for d in inputs]
@@ -125,6 +125,27 @@ def run(ctx):
             ctx.evals += 1
             if results[k][i] != fresh[i]:
                 ctx.violation("scan-threads", [d], "scan in a thread sharing the scanner differs from a fresh single-threaded scan")
+    # a brand-new scanner whose FIRST use is by 8 threads at the same moment (lazy initialisation must not race)
+    for attempt in range(ctx.budget(3, 12)):
+        newmd = Multidecoder()
+        barrier = threading.Barrier(8)
+        res2 = [[None] * len(inputs) for _ in range(8)]
+
+        def work2(k, newmd=newmd, barrier=barrier, res2=res2):
+            barrier.wait()
+            for i, d in enumerate(inputs):
+                res2[k][i] = node_val(newmd.scan(d))
+        ths = [threading.Thread(target=work2, args=(k,)) for k in range(8)]
+        for t in ths:
+            t.start()
+        for t in ths:
+            t.join()
+        after = [node_val(newmd.scan(d)) for d in inputs]
+        for i, d in enumerate(inputs):
+            ctx.evals += 1
+            if any(res2[k][i] != fresh[i] for k in range(8)) or after[i] != fresh[i]:
+                ctx.violation("scan-threads-first-use", [d], "a fresh scanner first used by 8 threads at once gives (then or afterwards) a different tree than a single-threaded scan")
+                break
     # processes under different hash seeds (library JSON and CLI)
     code = ("import sys,json;from multidecoder.multidecoder import Multidecoder;from multidecoder.json_conversion import tree_to_json;"
             "md=Multidecoder();print(json.dumps([tree_to_json(md.scan(bytes.fromhex(h))) for h in sys.argv[1:]]))")
